@@ -304,6 +304,8 @@ class FileStoreRequestBase:
             the third value is the length of the full TLV packet
         """
         value_idx = 0
+        if len(raw_bytes) < 1:
+            raise BytesTooShortError(1, 0)
         action_code_as_int = (raw_bytes[value_idx] >> 4) & 0x0F
         try:
             action_code = FilestoreActionCode(action_code_as_int)
@@ -386,10 +388,7 @@ class FileStoreRequestTlv(FileStoreRequestBase, AbstractTlvBase):
 
     @classmethod
     def unpack(cls, data: bytes) -> FileStoreRequestTlv:
-        cls._check_raw_tlv_field(data[0], FileStoreRequestTlv.TLV_TYPE)
-        filestore_req = cls.__empty()
-        cls._set_fields(filestore_req, data[2:])
-        return filestore_req
+        return cls.from_tlv(CfdpTlv.unpack(data))
 
     @classmethod
     def from_tlv(cls, cfdp_tlv: CfdpTlv) -> FileStoreRequestTlv:
@@ -468,10 +467,7 @@ class FileStoreResponseTlv(FileStoreRequestBase, AbstractTlvBase):
 
     @classmethod
     def unpack(cls, data: bytes) -> FileStoreResponseTlv:
-        cls._check_raw_tlv_field(data[0], FileStoreResponseTlv.TLV_TYPE)
-        filestore_reply = cls.__empty()
-        cls._set_fields(filestore_reply, data[2:])
-        return filestore_reply
+        return cls.from_tlv(CfdpTlv.unpack(data))
 
     @classmethod
     def from_tlv(cls, cfdp_tlv: CfdpTlv) -> FileStoreResponseTlv:
